@@ -201,6 +201,41 @@ class ViewND:
         return st.read(self.src_index(idx))
 
 
+class Concat:
+    """np.r_[a, b, ...] of 1-D arrays / scalars: read function over the concatenation"""
+
+    def __init__(self, parts):
+        self.parts = parts          # list of ('arr', ArrObj) | ('scalar', value)
+
+    def elem(self, i):
+        """value at index i as (cases): list of (condition, value)"""
+        out, off = [], IntVal0
+        for kind, v in self.parts:
+            if kind == 'arr':
+                n = R(v.shape[0])
+                out.append((z3.And(i >= off, i < off + n), v.read([i - off])))
+                off = off + n
+            else:
+                out.append((i == off, v))
+                off = off + 1
+        return out, off
+
+
+class CondArr:
+    """boolean 1-D array  scalar < Concat  etc."""
+
+    def __init__(self, fn, length):
+        self.fn, self.length = fn, length
+
+
+class FirstIndex:
+    pass
+
+
+IntVal0 = z3.IntVal(0)
+INF = z3.Real('INFINITY')     # np.inf: larger than every finite coordinate (used only in comparisons)
+
+
 class Opaque:
     def __init__(self, what):
         self.what = what
@@ -228,6 +263,7 @@ class Ex:
         self.fp = fresh_prefix
         self.arrays = []                 # every ArrObj created / bound
         self.region_writes = []
+        self.first_index_facts = []
         self._solver = None
         self._solver_n = -1
         self.depth = 0
@@ -349,6 +385,19 @@ class Ex:
         return z3.And(*res) if len(res) > 1 else res[0]
 
     def cmp(self, op, a, b):
+        if isinstance(b, Concat) or isinstance(a, Concat):
+            if isinstance(a, Concat):
+                raise OutsideSubset('array on the left of a comparison')
+            cat = b
+
+            def fn(i, a=a, cat=cat, op=op):
+                cases, total = cat.elem(i)
+                r = z3.BoolVal(False)
+                for cnd, v in reversed(cases):
+                    r = z3.If(cnd, self.cmp(op, a, v), r)
+                return r
+            cases, total = cat.elem(z3.IntVal(0))
+            return CondArr(fn, total)
         if is_conc(a) and is_conc(b):
             return {ast.Eq: a == b, ast.NotEq: a != b, ast.Lt: None, ast.LtE: None,
                     ast.Gt: None, ast.GtE: None, ast.Is: a is b, ast.IsNot: a is not b}[type(op)] \
@@ -497,8 +546,21 @@ class Ex:
             return self.binop(op, x, y)
         return self.new_array(f'tmp{next(self.fresh)}', shape, base=base)
 
+    def first_index(self, cond):
+        """dependency contract: np.where(c)[0][0] is the first index at which c holds (requires that one exists:
+        recorded as an obligation)"""
+        i = z3.Int(f'{self.fp}first{next(self.fresh)}')
+        self.pc += [i >= 0, i < R(cond.length), cond.fn(i), z3.Implies(i >= 1, z3.Not(cond.fn(i - 1)))]
+        j = z3.Int(f'{self.fp}anyj{next(self.fresh)}')
+        self.first_index_facts.append((i, cond))
+        return i
+
     def ev_Attribute(self, n):
         v = self.ev(n.value)
+        if isinstance(v, Opaque) and v.what == 'np' and n.attr == 'inf':
+            return INF
+        if isinstance(v, Opaque) and v.what == 'np' and n.attr == 'r_':
+            return Opaque('np.r_')
         if n.attr == 'shape' and hasattr(v, 'shape'):
             return tuple(v.shape)
         if n.attr == 'size' and hasattr(v, 'shape') and len(v.shape) == 1:
@@ -541,6 +603,22 @@ class Ex:
 
     def ev_Subscript(self, n):
         v = self.ev(n.value)
+        if isinstance(v, Opaque) and v.what == 'np.r_':
+            parts = []
+            for e in self.index_list(n.slice):
+                x = self.ev(e)
+                parts.append(('arr', x) if isinstance(x, ArrObj) else ('scalar', x))
+            return Concat(parts)
+        if isinstance(v, tuple) and len(v) == 2 and v[0] == 'where-result':
+            k = as_int(self.ev(n.slice))
+            if k != 0:
+                raise OutsideSubset('np.where(...)[k] with k != 0')
+            return ('where-indices', v[1])
+        if isinstance(v, tuple) and len(v) == 2 and v[0] == 'where-indices':
+            k = as_int(self.ev(n.slice))
+            if k != 0:
+                raise OutsideSubset('np.where(...)[0][k] with k != 0')
+            return self.first_index(v[1])
         if isinstance(v, Opaque):
             return Opaque('subscript')
         if isinstance(v, tuple):
@@ -611,10 +689,15 @@ class Ex:
             base = f.value
             if isinstance(base, ast.Name) and base.id in ('np', 'numpy'):
                 name = 'np.' + f.attr
+            elif ast.unparse(f).startswith(('np.', 'numpy.')):
+                name = 'np.' + ast.unparse(f).split('.', 1)[1]
             else:
                 name = '.' + f.attr
         if name in self.funcs:
             return self.funcs[name](self, [self.ev(a) for a in n.args], n)
+        if name in self.env and isinstance(self.env[name], tuple) and self.env[name][:1] == ('localfn',):
+            sub = self.inline(self.env[name][1], [self.ev(a) for a in n.args], n, outer_env=self.env)
+            return sub
         if name in ('max', 'min'):
             args = [self.ev(a) for a in n.args]
             if all(is_conc(a) for a in args):
@@ -626,6 +709,11 @@ class Ex:
                     r, a = toreal(r), toreal(a)
                 r = z3.If(r >= a, r, a) if name == 'max' else z3.If(r <= a, r, a)
             return r
+        if name == 'np.where' and len(n.args) == 1:
+            c = self.ev(n.args[0])
+            if not isinstance(c, CondArr):
+                raise OutsideSubset('np.where of a non-comparison')
+            return ('where-result', c)
         if name == 'len':
             v = self.ev(n.args[0])
             if isinstance(v, tuple):
@@ -672,6 +760,9 @@ class Ex:
 
     def st_Pass(self, s):
         pass
+
+    def st_FunctionDef(self, s):
+        self.env[s.name] = ('localfn', s)
 
     def st_Expr(self, s):
         if isinstance(s.value, ast.Constant):
@@ -1030,7 +1121,7 @@ class _Return(Exception):
     pass
 
 
-def _inline(self, fnode, args, callnode=None):
+def _inline(self, fnode, args, callnode=None, outer_env=None):
     sub = Ex(self.mod, pc=self.pc, funcs=self.funcs, loops={}, fresh_prefix=self.fp)
     sub.guards = list(self.guards)
     sub.bounds = self.bounds
@@ -1042,11 +1133,14 @@ def _inline(self, fnode, args, callnode=None):
     params = [a.arg for a in fnode.args.args]
     if len(params) != len(args):
         raise OutsideSubset(f'arity mismatch calling {fnode.name}')
-    sub.env = dict(zip(params, args))
+    sub.env = dict(outer_env or {})
+    sub.env.update(zip(params, args))
+    sub.first_index_facts = self.first_index_facts
     try:
         sub.run(intake.strip_doc(fnode.body))
     except _Return:
         pass
+    self.pc[:] = sub.pc           # facts assumed inside the callee (loop ranges, first-index contract) persist
     return sub.retval
 
 
